@@ -225,7 +225,10 @@ type CoinV struct {
 
 func (c *CoinV) vs() string { return "coin(" + vstr(c.Denom) + "," + vstr(c.Amt) + ")" }
 
-type CoinsV struct{ Items []*CoinV }
+type CoinsV struct {
+	Items     []*CoinV
+	Sanitised bool // built by sdk.NewCoins: zero-amount coins are dropped (the literal sdk.Coins{…} keeps them)
+}
 
 func (c *CoinsV) vs() string {
 	var s []string
